@@ -1103,10 +1103,8 @@ class C17(Prop):
     id = "C17"
     module = "C17"
     theorems = ["C17_df88591_from_str", "C17_from_char", "C17_array_string_prefix", "C17_utf8_valid", "C17_utf8_roundtrip", "C17_text_too_long", "C17_invalid_utf8_rejected",
-                "C17_descriptor_roundtrip", "C17_text_roundtrip_1029"]
-    partial_note = ("conversions, UTF-8 validity, refusal of long text, rejection of invalid UTF-8 and the round trip of both kinds of text field through a message body (descriptor strings "
-                    "at any position; the 1029 text as the longest prefix of whole characters that fits) are proved; partial only in that the frame wrapper around the 1029 body is "
-                    "covered by the correspondence (ROUNDTRIP operations)")
+                "C17_descriptor_roundtrip", "C17_text_roundtrip_1029", "C17_frame_1029"]
+    partial_note = None
     rule = ("STR88591 / UTF8STR with capacities 3,4,7,31,255 on strings around every capacity (ASCII, Latin-1 high half, NUL, 2-/3-/4-byte characters straddling the capacity, astral); "
             "ROUNDTRIP of 1007/1008/1021/1022/1029/1033/1300-1302 with such strings; DECODE of 1029 frames whose text was replaced by each class of invalid UTF-8; "
             "non-trivial = distinct strings of at least 2 characters")
